@@ -46,7 +46,7 @@ def run(rep, tier, seed, rng):
     for (i, t, k), r in runs:
         nruns += 1
         b = base[i]
-        if b["impl_raw"]["rc"] != r["rc"] or b["impl_raw"]["ninja"] != r["ninja"] or b["impl_raw"]["info"] != r["info"]:
+        if b["impl_raw"]["rc"] != r["rc"] or b["impl_raw"]["ninja"] != r["ninja"] or b["impl_raw"]["info"] != r["info"] or b["impl_raw"].get("info_raw") != r.get("info_raw"):
             rep.violation("repeated launch (RAYON_NUM_THREADS=%d, launch %d) differs from the first run: %s" %
                           (t, k, "exit status" if b["impl_raw"]["rc"] != r["rc"] else "ninja file" if b["impl_raw"]["ninja"] != r["ninja"] else "info-export"),
                           dict(files=cases[i][0], cli=cases[i][1], threads=t, launch=k, argv=r["argv"]), found_input=True)
